@@ -139,6 +139,94 @@ pub fn report_prep_case(ctx: &mut Ctx, input: &str, rep: &cooklang::error::Sourc
     ctx.case(format!("report_prep {} {}", enc_text(input), ds), reply, order.iter().any(|d| !d.labels.is_empty()), format!("report_prep {desc}"));
 }
 
+/// The WIDTHS `write_report` hands to codesnake (`max(w, 1) - sub`, lean/CookModel/Side/ReportWidths.lean, op
+/// `report_widths`), read back from the underline row codesnake draws under every code line of the coloured text:
+/// `─`×w in the label's colour for a label without text, `─…┬…─` for a label with text, w spaces for unlabelled
+/// code; and the gutter width from the prologue.  The widths of the strings involved come from the real
+/// `unicode-width` (every slice of a line between two cut points — label ends, line ends —, tabs expanded).
+/// Reports with a label over several lines are not compared (the rows around `incoming`/`outgoing` parts are not parsed).
+pub fn report_widths_case(ctx: &mut Ctx, input: &str, rep: &cooklang::error::SourceReport, colored: &[u8], desc: &str) {
+    use unicode_width::UnicodeWidthStr;
+    if rep.is_empty() { return; }
+    if input.contains('\u{1b}') || input.contains('│') || input.contains('┆') { return; }
+    let Ok(text) = std::str::from_utf8(colored) else { return };
+    let order: Vec<&cooklang::error::SourceDiag> = rep.warnings().chain(rep.errors()).collect();
+    for d in &order { for l in &d.labels {
+        let (a, b) = (l.0.start(), l.0.end());
+        match input.get(a..b) { Some(t) if !t.contains('\n') => {}, _ => { ctx.count("report_widths:skipped (label over several lines or invalid)"); return; } }
+    } }
+    // per diagnostic: gutter width and the underline rows (line number, parts)
+    let mut diags: Vec<(usize, Vec<(usize, Vec<String>)>)> = vec![];
+    let lines: Vec<&str> = text.split('\n').collect();
+    let mut i = 0;
+    while i < lines.len() {
+        let line = lines[i]; i += 1;
+        if line.starts_with("\u{1b}[33mWarning:\u{1b}[0m ") || line.starts_with("\u{1b}[31mError:\u{1b}[0m ") { diags.push((0, vec![])); continue; }
+        let Some(cur) = diags.last_mut() else { continue };
+        let t = line.trim_start_matches(' ');
+        if t.starts_with("╭─") && cur.1.is_empty() { cur.0 = (line.len() - t.len()).saturating_sub(1); continue; }
+        let digits: String = t.chars().take_while(|c| c.is_ascii_digit()).collect();
+        if digits.is_empty() || !t[digits.len()..].starts_with(" │") { continue; }
+        // the row under a code line: gutter, ` ┆`, a space, the underlines
+        let Some(row) = lines.get(i) else { continue };
+        let Some(mut r) = row.trim_start_matches(' ').strip_prefix("┆ ") else { continue };
+        let mut parts = vec![];
+        while !r.is_empty() {
+            if let Some(after) = r.strip_prefix("\u{1b}[") {
+                let Some((_code, after)) = after.split_once('m') else { break };
+                let Some((piece, after)) = after.split_once("\u{1b}[0m") else { break };
+                parts.push(format!("l{}", piece.chars().count()));
+                r = after;
+            } else {
+                let n = r.chars().take_while(|c| *c == ' ').count();
+                if n == 0 { parts.push(format!("?{r}")); break; }
+                parts.push(format!("p{n}"));
+                r = &r[n..];
+            }
+        }
+        cur.1.push((digits.parse::<usize>().unwrap_or(0).wrapping_sub(1), parts));
+    }
+    let reply = if diags.len() != order.len() { format!("UNPARSEABLE {} headers for {} diagnostics", diags.len(), order.len()) } else {
+        order.iter().zip(diags.iter()).map(|(d, (g, rows))| {
+            if d.labels.is_empty() { "N".to_string() }
+            else if rows.is_empty() { "R".to_string() }
+            else { format!("W{g}[{}]", rows.iter().map(|(n, ps)| format!("L{n}:{}", ps.join(","))).collect::<Vec<_>>().join(";")) }
+        }).collect::<Vec<_>>().join(" ")
+    };
+    // the width table: every slice of a line between two cut points
+    let mut table: std::collections::BTreeMap<String, usize> = Default::default();
+    table.insert(String::new(), 0);
+    let mut cuts: Vec<usize> = order.iter().flat_map(|d| d.labels.iter().flat_map(|l| [l.0.start(), l.0.end()])).collect();
+    let mut pos = 0;
+    for line in input.split('\n') { cuts.push(pos); cuts.push(pos + line.len()); pos += line.len() + 1; }
+    cuts.sort(); cuts.dedup();
+    let mut pos = 0;
+    for line in input.split('\n') {
+        let (a, b) = (pos, pos + line.len()); pos = b + 1;
+        let here: Vec<usize> = cuts.iter().copied().filter(|c| a <= *c && *c <= b).collect();
+        for x in &here { for y in &here { if x <= y { if let Some(t) = input.get(*x..*y) {
+            let t = t.replace('\t', "    ");
+            let w = UnicodeWidthStr::width(&*t);
+            if t.chars().any(|c| unicode_width::UnicodeWidthChar::width(c).unwrap_or(0) != 1) { ctx.count("report_widths:slice with a character of width != 1"); }
+            if w != t.chars().map(|c| unicode_width::UnicodeWidthChar::width(c).unwrap_or(0)).sum::<usize>() { ctx.count("report_widths:slice whose width is not the sum of its characters' widths"); }
+            table.insert(r_cps(&t), w);
+        } } } }
+    }
+    for (d, (_, rows)) in order.iter().zip(diags.iter()) {
+        if !d.labels.is_empty() && !rows.is_empty() {
+            ctx.count("report_widths:block");
+            if d.labels.iter().any(|l| l.0.start() == l.0.end()) { ctx.count("report_widths:block with an empty label"); }
+            if rows.iter().any(|(_, ps)| ps.iter().any(|p| p == "l0")) { ctx.count("report_widths:labelled part of width 0"); }
+            if input.contains("\r\n") { ctx.count("report_widths:block, CRLF input"); }
+        }
+    }
+    let enc = |d: &cooklang::error::SourceDiag| format!("{}:{}", if d.is_warning() { "W" } else { "E" },
+        if d.labels.is_empty() { "-".to_string() } else { d.labels.iter().map(|l| format!("{}.{}.{}", l.0.start(), l.0.end(), if l.1.is_some() { "t" } else { "n" })).collect::<Vec<_>>().join(",") });
+    let ds = rep.iter().map(enc).collect::<Vec<_>>().join(";");
+    let tbl = table.iter().map(|(k, v)| format!("{k}={v}")).collect::<Vec<_>>().join(";");
+    ctx.case(format!("report_widths {} {} {}", enc_text(input), ds, tbl), reply, order.iter().any(|d| !d.labels.is_empty()), format!("report_widths {desc}"));
+}
+
 pub fn one(ctx: &mut Ctx, input: &str, ext_bits: u32, full_parse: bool) {
     let ext = Extensions::from_bits_retain(ext_bits);
     let desc = format!("ext={ext_bits} input={input:?}");
@@ -235,7 +323,7 @@ pub fn one(ctx: &mut Ctx, input: &str, ext_bits: u32, full_parse: bool) {
                         let mut buf = Vec::new();
                         if let Err(p) = guarded(|| res.report().write("r.cook", input, color, &mut buf)) {
                             ctx.oracle_fail(desc.clone(), format!("SourceReport::write panicked: {p}"), "c04:report-render".into());
-                        } else if color { report_prep_case(ctx, input, res.report(), &buf, &desc); }
+                        } else if color { report_prep_case(ctx, input, res.report(), &buf, &desc); report_widths_case(ctx, input, res.report(), &buf, &desc); }
                     }
                 }
             }
